@@ -166,18 +166,19 @@ func c08RunConcurrent(rep *kit.Report, rng *kit.RNG, idx int) {
 		}
 	}
 	var (
-		started    atomic.Bool
-		startCh    = make(chan struct{})
-		reqCh      = make(chan int)
-		doneCh     = make(chan error)
-		hookMu     sync.Mutex
-		hookRNG    = kit.NewRNG(seed ^ 0x5ca1ab1e)
-		occ        = map[string]int{}
-		gateFired  int
-		watchdog   atomic.Bool
-		appended   atomic.Int64
-		appendErr  error
-		appenderWG sync.WaitGroup
+		started      atomic.Bool
+		startCh      = make(chan struct{})
+		reqCh        = make(chan int)
+		doneCh       = make(chan error, 1)
+		hookMu       sync.Mutex
+		hookRNG      = kit.NewRNG(seed ^ 0x5ca1ab1e)
+		occ          = map[string]int{}
+		gateFired    int
+		watchdog     atomic.Bool
+		appenderBusy atomic.Bool
+		appended     atomic.Int64
+		appendErr    error
+		appenderWG   sync.WaitGroup
 	)
 	isPoint := map[string]bool{}
 	for _, p := range c08HookPoints {
@@ -204,16 +205,21 @@ func c08RunConcurrent(rep *kit.Report, rng *kit.RNG, idx int) {
 		if started.CompareAndSwap(false, true) {
 			close(startCh)
 		}
-		if want > 0 {
-			reqCh <- want
+		if want > 0 && !watchdog.Load() && !appenderBusy.Load() {
+			// (a hook point reached from inside the appender's own Append is
+			// never a gate: the cleaner is the goroutine being held)
 			select {
-			case err := <-doneCh:
-				if err != nil {
-					return nil
+			case reqCh <- want:
+				select {
+				case err := <-doneCh:
+					if err == nil {
+						hookMu.Lock()
+						gateFired++
+						hookMu.Unlock()
+					}
+				case <-time.After(60 * time.Second):
+					watchdog.Store(true)
 				}
-				hookMu.Lock()
-				gateFired++
-				hookMu.Unlock()
 			case <-time.After(60 * time.Second):
 				watchdog.Store(true)
 			}
@@ -257,7 +263,9 @@ func c08RunConcurrent(rep *kit.Report, rng *kit.RNG, idx int) {
 		for {
 			select {
 			case n := <-reqCh:
+				appenderBusy.Store(true)
 				err := appendRange(next, n, ar)
+				appenderBusy.Store(false)
 				if err == nil {
 					next += int64(n)
 					appended.Store(next - int64(n0))
@@ -331,18 +339,23 @@ func c08RunConcurrent(rep *kit.Report, rng *kit.RNG, idx int) {
 		close(startCh) // clean hit no hook point (e.g. one segment): let a free appender run anyway
 	}
 	verifhook.Set(nil)
-	if free {
-		appenderWG.Wait()
-	} else {
+	if !free {
 		close(stopAppender)
-		appenderWG.Wait()
+	}
+	if !c08WaitTimeout(&appenderWG, 60*time.Second) {
+		cancel()
+		rep.Inconc(fmt.Sprintf("case %d: watchdog while waiting for the appender goroutine to finish", idx))
+		return
 	}
 	// Give the readers a moment to run on into the cleaned log, then stop
 	// them; their coverage is whatever they got (the pause is workload, not
 	// oracle).
 	time.Sleep(2 * time.Millisecond)
 	cancel()
-	rwg.Wait()
+	if !c08WaitTimeout(&rwg, 60*time.Second) {
+		rep.Inconc(fmt.Sprintf("case %d: watchdog while waiting for the reader goroutines to finish", idx))
+		return
+	}
 	if cerr != nil {
 		e.fail("C08:clean-error", fmt.Sprintf("Clean racing with an appender failed: %v", cerr), nil)
 		return
@@ -431,4 +444,16 @@ func c08RunConcurrent(rep *kit.Report, rng *kit.RNG, idx int) {
 		rep.Sample(e.replay(map[string]any{"survivors": c08Offs(e.model)}))
 	}
 	e.finish(fmt.Sprintf("%d|%d|%s|%d|%s|%d", maxSeg, gor, strings.Join(e.keys, ","), e.hw, sched, total), rolled >= 1 && e.removedMsgs > 0)
+}
+
+// c08WaitTimeout waits for wg with a watchdog (expiry = inconclusive, never a verdict).
+func c08WaitTimeout(wg *sync.WaitGroup, d time.Duration) bool {
+	ch := make(chan struct{})
+	go func() { wg.Wait(); close(ch) }()
+	select {
+	case <-ch:
+		return true
+	case <-time.After(d):
+		return false
+	}
 }
